@@ -1,4 +1,5 @@
 import Cgm.Lemmas.AuditCmd
 import Cgm.E2E.C18
 import Cgm.E2E.C18b
+import Cgm.E2E.C18c
 #audit_namespace Cg.E2E.C18
